@@ -1,6 +1,7 @@
 package guards
 
 import (
+	"go/token"
 	"fmt"
 	"go/types"
 
@@ -106,12 +107,7 @@ func (e *Engine) scanInitOnly(g *ssa.Global) map[string]*ssa.Const {
 					c = nil
 				}
 				out[k] = c
-				switch v := u.Val.(type) {
-				case *ssa.Function, *ssa.MakeClosure, *ssa.Alloc, *ssa.MakeSlice, *ssa.MakeMap:
-					nonNil[k] = true
-				case *ssa.Const:
-					nonNil[k] = v.Value != nil
-				}
+				nonNil[k] = nonNilInitValue(u.Val)
 			case *ssa.DebugRef:
 			default:
 				return false
@@ -149,6 +145,13 @@ func (e *Engine) scanInitOnly(g *ssa.Global) map[string]*ssa.Const {
 					case *ssa.Store:
 						if u.Addr != ssa.Value(g) || !inInit {
 							ok = false
+						}
+						// an array literal built in a temporary and copied over (`var t = [...]T{K: v, …}`): the element stores
+						// of the temporary are the element stores of the table
+						if ld, isLd := u.Val.(*ssa.UnOp); isLd && ld.Op == token.MUL && inInit {
+							if al, isAl := ld.X.(*ssa.Alloc); isAl && tempArrayInit(al, ld, nonNil) {
+								continue
+							}
 						}
 						// a whole-value store in the initialiser: fields are not tracked individually
 						out["whole"] = nil
@@ -188,4 +191,56 @@ func (e *Engine) scanInitOnly(g *ssa.Global) map[string]*ssa.Const {
 func (e *Engine) initOnlyWholeNonNil(g *ssa.Global) bool {
 	e.initOnlyConst(g, nil) // make sure g has been scanned
 	return e.initNonNil[g]["whole"]
+}
+
+// tempArrayInit: al is a local array that is only filled element by element at constant indices and then loaded once
+// (by ld); records which elements received a non-nil value.
+func tempArrayInit(al *ssa.Alloc, ld *ssa.UnOp, nonNil map[string]bool) bool {
+	if _, isArr := derefType(al.Type()).Underlying().(*types.Array); !isArr || al.Referrers() == nil {
+		return false
+	}
+	got := map[string]bool{}
+	for _, r := range *al.Referrers() {
+		switch u := r.(type) {
+		case *ssa.UnOp:
+			if u != ld {
+				return false
+			}
+		case *ssa.DebugRef:
+		case *ssa.IndexAddr:
+			k, ok := ConstInt(u.Index)
+			if u.X != ssa.Value(al) || !ok || k < 0 || u.Referrers() == nil {
+				return false
+			}
+			for _, r2 := range *u.Referrers() {
+				st, isSt := r2.(*ssa.Store)
+				if !isSt || st.Addr != ssa.Value(u) {
+					return false
+				}
+				key := fmt.Sprint([]int{-1 - int(k)})
+				if _, dup := got[key]; dup {
+					return false
+				}
+				got[key] = nonNilInitValue(st.Val)
+			}
+		default:
+			return false
+		}
+	}
+	for k, v := range got {
+		nonNil[k] = v
+	}
+	return true
+}
+
+func nonNilInitValue(v ssa.Value) bool {
+	switch x := v.(type) {
+	case *ssa.Function, *ssa.MakeClosure, *ssa.Alloc, *ssa.MakeSlice, *ssa.MakeMap, *ssa.MakeInterface:
+		return true
+	case *ssa.ChangeType:
+		return nonNilInitValue(x.X)
+	case *ssa.Const:
+		return x.Value != nil
+	}
+	return false
 }
